@@ -5,6 +5,7 @@
 #include <algorithm>
 #include <cctype>
 #include <iterator>
+#include <limits>
 #include <vector>
 
 #include "../Exceptions.h"
@@ -219,7 +220,14 @@ int toInt(const std::string& s, char scientificNotation)
 {
   if (!isDecimalInteger(s, scientificNotation))
     throw Exception("TextTools::toInt(). Invalid number specification: " + s);
-  return fromString<int>(s);
+  auto sciPos = s.find(scientificNotation);
+  if (sciPos == std::string::npos)
+    return fromString<int>(s);
+  // Scientific notation (non-negative exponent): the stream would stop at the exponent character.
+  double d = fromString<double>(s.substr(0, sciPos) + "e" + s.substr(sciPos + 1));
+  if (!(d >= static_cast<double>(std::numeric_limits<int>::min()) && d <= static_cast<double>(std::numeric_limits<int>::max())))
+    throw Exception("TextTools::toInt(). Number out of range: " + s);
+  return static_cast<int>(d);
 }
 
 /******************************************************************************/
